@@ -96,7 +96,7 @@ class VEngine(Engine):
             for s in shp:
                 if isinstance(s, str):
                     old = self.spec
-                    self.spec = None
+                    self.spec = SpecCtx(pre=st, polarity=0, lets={}, contract=None)
                     try:
                         shape.append(self.as_int(self.ev(ast.parse(s, mode="eval").body, st)))
                     finally:
@@ -118,7 +118,12 @@ class VEngine(Engine):
             return v
         if spec.get("none"):
             return Val.of_none()
+        if spec.get("param"):
+            return st.env[spec["param"]]  # the callee returns this argument itself (same reference)
         if spec.get("obj"):
+            for field, fspec in (spec.get("fields") or {}).items():
+                from .contracts import norm_path
+                ctx().types[norm_path("X." + field).replace("X.", "$" + name + ".", 1)] = fspec
             return Val(ref="$" + name, py=("instance", spec["obj"]))
         return Val(poly=name, ref="$" + name)
 
@@ -243,7 +248,7 @@ class VEngine(Engine):
             post.env["result"] = acc_v
             self.covers.append((qual + "::normal-exit-reachable", post.pc))
             for cl in c.ensures:
-                if not self.rel(cl):
+                if not self.rel(cl) or getattr(cl, "assumed", False):
                     continue
                 g = self.eval_clause(cl, post, pre=self.entry_state, polarity=1)
                 self.oblige("ensures::" + cl.name, post, g, "ensures", cl.top, cl.props, fi.node, cl)
